@@ -753,6 +753,19 @@ def rule_short_read_keeps_data(prog, fixture=False):
                                       (strip((strip_all(a))["c"][0]) or {}).get("n") == "empty"
                                       for a, truth in (g.truths(n) or []))
                     if not empty_known:
+                        # ... or a running count of the bytes delivered so far (starts at 0, only ever `+= got`) is zero
+                        for l, rel, rr in (g.cmps(n) or []):
+                            for a, b in ((l, rr), (rr, l)):
+                                av = strip_all(a)
+                                if rel == "==" and folded(b) == 0 and av is not None and av.get("k") == "DeclRefExpr" and av.get("dk") == "Var":
+                                    init0 = any(v.get("k") == "VarDecl" and v.get("d") == av["d"] and v.get("c") and folded(v["c"][0]) == 0
+                                                for v in fn.walk())
+                                    ws = [w for w in fn.walk() if w.get("k") in ("BinaryOperator", "CompoundAssignOperator", "UnaryOperator")
+                                          and w.get("op") in flow.ASSIGN_OPS | {"++", "--"} and (strip_all(w["c"][0]) or {}).get("d") == av["d"]]
+                                    adds = all(w.get("op") == "+=" and (strip_all(w["c"][1]) or {}).get("d") == var for w in ws)
+                                    if init0 and ws and adds and var is not None:
+                                        empty_known = True
+                    if not empty_known:
                         problem = "%s: after a short read the function returns `%s` instead of the bytes it did read: a " \
                                   "request that runs past the end of the decompressed data yields nothing, while the same " \
                                   "request on the plain file yields the available bytes" % (fn.loc(n), show(e)[:40])
